@@ -319,6 +319,13 @@ class EventRelatedAnalyzer(desc.ResetMixin):
                 else:
                     event_trig = self.data.data[i][idx + add_offset]
 
+                #Work in double precision, whatever the dtype of the data (as
+                #is done for time-series events above, where the data is
+                #stacked with float64 zeros):
+                event_trig = np.asarray(event_trig,
+                                        dtype=np.result_type(event_trig,
+                                                             np.float64))
+
                 #Correct baseline by removing the first point in the series
                 #(as is done for time-series events above):
                 if self._correct_baseline:
@@ -385,6 +392,13 @@ class EventRelatedAnalyzer(desc.ResetMixin):
                 #array:
                 else:
                     event_trig = self.data.data[i][idx + add_offset]
+
+                #Work in double precision, whatever the dtype of the data (as
+                #is done for time-series events above, where the data is
+                #stacked with float64 zeros):
+                event_trig = np.asarray(event_trig,
+                                        dtype=np.result_type(event_trig,
+                                                             np.float64))
 
                 #Correct baseline by removing the first point in the series
                 #(as is done for time-series events above):
